@@ -1,0 +1,27 @@
+//go:build verif
+// +build verif
+
+// Contracts for the verification machinery in /verif (comment-only; compiled only with -tags verif).
+package php7
+
+// The precondition on the version is not needed by the body; it is the property's dispatch rule
+// (C09: the PHP 7 grammar serves exactly the 7.x versions), discharged at the call site in pkg/parser.
+//@ func NewParser
+//@   requires lexer != nil
+//@   requires config.Version != nil && config.Version.Major == 7
+//@   ensures result != nil && fresh(result)
+//@   ensures result.Lexer == lexer && result.errHandlerFunc == config.ErrorHandlerFunc && result.rootNode == nil
+//@   modifies nothing
+//@   props C09, C06, C01
+
+//@ func (*Parser).GetRootNode
+//@   requires p != nil
+//@   ensures result == p.rootNode
+//@   modifies nothing
+//@   props C09, C06
+
+// The LR driver (yyParse) is generated code outside the contract engine's reach; this contract is
+// assumed, not proved (DESIGN §7.7). It says nothing, so callers learn nothing from it.
+//@ func (*Parser).Parse
+//@   requires p != nil
+//@   trusted goyacc LR driver
